@@ -220,6 +220,8 @@ def Graph.mergeEdges (g : Graph κ) (eid1 eid2 : Int) (d : Bool) : Except Err (G
     pyAssert ((node1.eids d).length == 1)
     pyAssert ((node2.eids d).length == 1)
     pyAssert (node1.qnum == node2.qnum)
+    -- a terminal node cannot acquire upstream edges
+    pyAssert (!((node1.nid == g.nidTerminal.1 || node1.nid == g.nidTerminal.2) && !(node2.eids (!d)).isEmpty))
     -- make former edges from node2 point to node1
     let g ← (node2.eids (!d)).foldlM
       (fun g eid => g.modifyEdge eid (fun e => pure (e.setNid d node1.nid))) g
@@ -249,8 +251,11 @@ def Graph.canMerge (g : Graph κ) (d : Bool) (eid1 eid2 : Int) : Except Err (Opt
     if (node1.eids d).length != 1 then pure none
     else if (node2.eids d).length != 1 then pure none
     else if node1.qnum != node2.qnum then pure none
-    else if node2.nid == g.nidTerminal.1 || node2.nid == g.nidTerminal.2 then pure (some (eid2, eid1))
-    else pure (some (eid1, eid2))
+    else
+      -- a terminal node is never absorbed (roles swapped), and only absorbs a node without further upstream edges
+      let isTerm := fun (n : Node) => n.nid == g.nidTerminal.1 || n.nid == g.nidTerminal.2
+      let (p, n1, n2) := if isTerm node2 then ((eid2, eid1), node2, node1) else ((eid1, eid2), node1, node2)
+      if isTerm n1 && !(n2.eids (!d)).isEmpty then pure none else pure (some p)
 
 /-- first pair (in `combinations` order) that can be merged -/
 def Graph.findPair (g : Graph κ) (d : Bool) : List (Int × Int) → Except Err (Option (Int × Int))
